@@ -426,7 +426,7 @@ func evalC16(c c16Case) (f *Failure, nontrivial bool) {
 	racesBefore := raceErrors()
 	raceLogMark := raceLogSize()
 	var res *Failure
-	var r *rig
+	var rp atomic.Pointer[rig] // read by hook callbacks on library goroutines
 	w := &c16World{c: c, ss: map[int]sio.ServerSocket{}}
 	withHooks(hookSet{
 		point: func(site string) {
@@ -438,9 +438,10 @@ func evalC16(c c16Case) (f *Failure, nontrivial bool) {
 				}
 			}
 		},
-		stop: func(string) bool { return r != nil && r.closing.Load() },
+		stop: func(string) bool { r := rp.Load(); return r != nil && r.closing.Load() },
 	}, func() {
-		r = newRig(rigOpts{Recovery: c.Recovery, PingInterval: time.Second, PingTimeout: 5 * time.Second})
+		r := newRig(rigOpts{Recovery: c.Recovery, PingInterval: time.Second, PingTimeout: 5 * time.Second})
+		rp.Store(r)
 		w.r = r
 		w.nsp = r.Server.Of("/")
 		lifecycle := func(k int, i int) {
@@ -603,19 +604,31 @@ func evalC16(c c16Case) (f *Failure, nontrivial bool) {
 	return res, nontrivial
 }
 
-// c16RaceClass names a race by the innermost repository function of each of its two stacks (sorted), so that a known finding
-// identifies one particular race and any other race is still reported.
+// c16RaceClass names a race by the function that owns each of the two conflicting accesses (sorted): walking each stack from the
+// access outwards, standard-library and third-party frames are skipped (the library called them), and the first frame that
+// belongs to the repository or to the harness owns the access. A race both of whose accesses are owned by the harness is
+// the harness's own ("race:?~?"); everything else is the repository's, and a known finding names one particular pair.
 func c16RaceClass(report string) string {
 	first, _, _ := strings.Cut(report, "==================\n\n")
 	parts := regexp.MustCompile(`(?m)^(?:Previous )?(?:[Rr]ead|[Ww]rite|atomic \w+) (?:at|of) .*$`).Split(first, -1)
 	var fns []string
 	for _, p := range parts[1:] {
 		p, _, _ = strings.Cut(p, "\n\n")
-		if fn := c16RepoFunc(p); fn != "" {
-			fns = append(fns, fn)
-		} else {
-			fns = append(fns, "?")
+		owner := "?"
+		for _, l := range strings.Split(p, "\n") {
+			l = strings.TrimSpace(l)
+			if strings.HasPrefix(l, "verif/harness") {
+				break // the harness's own access
+			}
+			if fn := c16RepoFunc(l); fn != "" {
+				if strings.HasPrefix(fn, "/internal/verifhook.") {
+					continue // the hook trampoline calls into the harness
+				}
+				owner = fn
+				break
+			}
 		}
+		fns = append(fns, owner)
 		if len(fns) == 2 {
 			break
 		}
